@@ -216,7 +216,7 @@ func genDecodeOp(rng *Rng, cfg *configuration.Configuration, format string, deco
 }
 
 // event-level encoders and the validator: whole streams, abandoned prefixes, invalid streams
-func genStreamOp(rng *Rng, cfg *configuration.Configuration, gc GenCfg, play func(inst interface{}, evs []Event) string) reuseOp {
+func genStreamOp(rng *Rng, cfg *configuration.Configuration, gc GenCfg, allowInvalid bool, play func(inst interface{}, evs []Event) string) reuseOp {
 	g := NewGen(rng, gc)
 	evs := g.Doc()
 	what := "whole"
@@ -227,8 +227,12 @@ func genStreamOp(rng *Rng, cfg *configuration.Configuration, gc GenCfg, play fun
 			what = "abandoned"
 		}
 	case 1:
-		evs, what = mutate(rng, evs)
-		what = "mutated:" + what
+		// invalid streams only for the validator: the encoders are specified for valid event
+		// sequences (what they do with an array-data event outside an array is not defined)
+		if allowInvalid {
+			evs, what = mutate(rng, evs)
+			what = "mutated:" + what
+		}
 	}
 	return reuseOp{what + " " + EventsText(evs), func(inst interface{}) string { return play(inst, evs) }}
 }
@@ -307,7 +311,7 @@ func reuseKinds(cfg *configuration.Configuration) []reuseKind {
 			})
 		}},
 		{"cbe-encoder", func() interface{} { return cbe.NewEncoder(cfg) }, func(rng *Rng, c *configuration.Configuration) reuseOp {
-			return genStreamOp(rng, cfg, streamCfg, func(inst interface{}, evs []Event) string {
+			return genStreamOp(rng, cfg, streamCfg, false, func(inst interface{}, evs []Event) string {
 				enc := inst.(*cbe.Encoder)
 				var buf bytes.Buffer
 				enc.PrepareToEncode(&buf)
@@ -316,7 +320,7 @@ func reuseKinds(cfg *configuration.Configuration) []reuseKind {
 			})
 		}},
 		{"cte-encoder", func() interface{} { return cte.NewEncoder(cfg) }, func(rng *Rng, c *configuration.Configuration) reuseOp {
-			return genStreamOp(rng, cfg, cteStreamCfg, func(inst interface{}, evs []Event) string {
+			return genStreamOp(rng, cfg, cteStreamCfg, false, func(inst interface{}, evs []Event) string {
 				enc := inst.(*cte.EncoderEventReceiver)
 				var buf bytes.Buffer
 				enc.PrepareToEncode(&buf)
@@ -325,7 +329,7 @@ func reuseKinds(cfg *configuration.Configuration) []reuseKind {
 			})
 		}},
 		{"rules", func() interface{} { rec := &Recorder{}; return []interface{}{rules.NewRules(rec, cfg), rec} }, func(rng *Rng, c *configuration.Configuration) reuseOp {
-			return genStreamOp(rng, cfg, allGenCfg(), func(inst interface{}, evs []Event) string {
+			return genStreamOp(rng, cfg, allGenCfg(), true, func(inst interface{}, evs []Event) string {
 				pair := inst.([]interface{})
 				r := pair[0].(*rules.RulesEventReceiver)
 				rec := pair[1].(*Recorder)
@@ -353,12 +357,12 @@ func runC16(r *Run) {
 		for i := 0; i < n; i++ {
 			op := kind.gen(rng, cfg)
 			hist = append(hist, trunc(op.desc, 400))
-			want, hungF := withWatchdog(20*time.Second, func() string { return op.run(kind.fresh()) })
+			want, hungF := withWatchdog(6*time.Second, func() string { return op.run(kind.fresh()) })
 			if hungF {
 				r.out.Finding("C16", "hang-fresh:"+kind.name, "a call on a FRESH instance does not return", strings.Join(hist, " || "))
 				break
 			}
-			got, hung := withWatchdog(20*time.Second, func() string { return op.run(inst) })
+			got, hung := withWatchdog(6*time.Second, func() string { return op.run(inst) })
 			r.out.Count("ops:" + kind.name)
 			if strings.HasPrefix(want, "ERR") || strings.HasPrefix(want, "PANIC") {
 				r.out.Count("ops-failing:" + kind.name)
@@ -366,6 +370,26 @@ func runC16(r *Run) {
 			if hung {
 				r.out.Finding("C16", "hang:"+kind.name, fmt.Sprintf("operation %d of the history on a reused %s does not return (fresh instance: %s)", i+1, kind.name, trunc(want, 80)), strings.Join(hist, " || "))
 				break
+			}
+			if got != want && strings.HasPrefix(got, "ok ") && strings.HasPrefix(want, "ok ") && strings.HasSuffix(kind.name, "-marshaler") {
+				// Go map iteration order is random: two marshal runs of one value may order map entries
+				// differently.  Compare the documents as data (Lean tree equality up to map-entry order).
+				da, _ := unhx(got[3:])
+				db, _ := unhx(want[3:])
+				var ea, eb []Event
+				var e1, e2 error
+				if strings.HasPrefix(kind.name, "cbe") {
+					ea, e1 = cbeDecode(da, cfg, false)
+					eb, e2 = cbeDecode(db, cfg, false)
+				} else {
+					ea, e1 = cteDecode(da, cfg, false)
+					eb, e2 = cteDecode(db, cfg, false)
+				}
+				if e1 == nil && e2 == nil {
+					r.out.Line("prop", fmt.Sprintf("%d|differs:%s", idx, kind.name), "TREE.EQ", []string{"0", "0", EventsText(ea), EventsText(eb)}, "1")
+					r.out.Count("marshal-compared-as-data")
+					continue
+				}
 			}
 			if got != want {
 				r.out.Finding("C16", "differs:"+kind.name, fmt.Sprintf("operation %d of the history on a reused %s gives %s, a fresh instance gives %s", i+1, kind.name, trunc(got, 300), trunc(want, 300)), strings.Join(hist, " || "))
